@@ -5,6 +5,7 @@ import IbModel.Props.C04
 import IbModel.Props.C05
 import IbModel.Model.Closures
 import IbModel.Proofs.ProgramBuilt
+import IbModel.Proofs.Terminals
 /-!
 # C01 — sequential and parallel execution return the same result
 
@@ -14,6 +15,27 @@ returns exactly what `exec_seq` returns (same value or same error). The contract
 the builders' closures in `Props/C02.lean` (element-wise ops, `VecOpsImpl::split`), `Props/C04.lean`
 (group_by_key), `Props/C05.lean` (per-key / global combines under `LawfulCombiner`) and
 `Props/C07.lean` (joins).
+
+Round 3 additions (last sections of this file):
+* the sorted terminals `collect_seq_sorted` / `collect_par_sorted` / `collect_par_sorted_by_key`: the `Ord`-sorted
+  result is a function of the MULTISET of rows (`C01_sorted_of_same_multiset`), so after a barrier — where the
+  real engine agrees across modes only up to row order — the sorted sequences still agree exactly; the stable
+  key-only sort is determined up to the order of equal-key rows (`C01_sorted_by_key_of_same_multiset_partial`,
+  negation `C01_sorted_by_key_not_a_function_of_the_multiset`) and exactly for barrier-free programs;
+* sources: `from_iter` (`C01_from_iter`) and `from_custom_source` with a user `VecOps` whose `len` may answer
+  `None` / anything and whose `split` may answer `None`, more, fewer or empty parts (`C01_custom_source`,
+  `C01_program_custom`) — under the `VecOps` contract "the parts concatenate to `clone_any`", which is needed
+  (`C01_custom_source_contract_needed`);
+* FLOAT AGGREGATES ("aggregates that accumulate floating-point sums agree up to rounding"). PROVED: the
+  exact-arithmetic statement — `Sum` / `Average` over `Rat` are lawful combiners (`Props/C06.lean`), the engine
+  evaluates a merge tree of the per-partition folds (`C01_pipeline`, `program_combineGlobally_value(_par)`,
+  `program_combineValues_value`), hence over exact numbers both modes return the same value for every partition
+  count and fan-out. ONLY EXERCISED (no theorem; Lean's `Float` is opaque to the kernel): that the IEEE-double
+  results of the two modes stay within 1e-9 relative of each other and of the row-order fold
+  (`Model/ProgramFloat.lean`, `PIPEFL` requests: `Sum<f64>` / `AverageF64` through all four combine entry points,
+  every fan-out, the standard partition counts, private rayon pools of 1..16 threads; NON-NEGATIVE terms only, up
+  to 400 of them, so that cancellation cannot make a correct run miss the tolerance — the standard bound
+  `(n-1)·2⁻⁵³` for recursive summation of same-sign terms is an assumption, not a theorem here).
 -/
 namespace IB
 variable {P : Type}
@@ -501,5 +523,119 @@ theorem C01_program_file (src : List Val) (per : Nat) (steps : List Step)
 example : runParFile [] 3 [.combineGlobally .sum (some 1)] 4 = .ok [.int 0] ∧
     runSeqFile [] 3 [.combineGlobally .sum (some 1)] = .ok [.int 0] := by
   constructor <;> rfl
+
+/-! ## Round 3: the sorted terminals (`helpers/collect_sorted.rs`, `Model/ProgramTerm.lean`)
+
+`collect_seq_sorted` / `collect_par_sorted(parts, chunk)` are the plain collect followed by `[T]::sort` with the
+element's `Ord` (`rowLe`: `V::cmp` = `Val.le`; tuples lexicographically); `collect_par_sorted_by_key` is the
+parallel collect followed by the STABLE `sort_by` on the key alone (`sortByKey`). -/
+
+/-- in the model the two modes agree on the sorted terminal because they agree on the rows (`C01_program`) -/
+theorem C01_sorted_program (sh : RowShape) (src : List Val) (steps : List Step)
+    (h : stepsSupported steps = true) (n : Nat) :
+    (runPar src steps n).map (sortRows sh) = (runSeq src steps).map (sortRows sh) := by
+  rw [C01_program src steps h n]
+
+/-- **what carries over to the real engine after a barrier.** There the two modes return the same rows only AS A
+    MULTISET (a `HashMap` decides the row order). For the sorted terminals that is enough: two row lists that are
+    permutations of each other sort to the SAME SEQUENCE (`(K, V)` rows being pairs), because `Ord` on `V` and on
+    `(V, V)` is total, transitive and antisymmetric. -/
+theorem C01_sorted_of_same_multiset (sh : RowShape) (r1 r2 : List Val) (hp : r1.Perm r2)
+    (hs : ∀ r ∈ r1, shapeOK sh r) : sortRows sh r1 = sortRows sh r2 :=
+  sortRows_of_perm sh r1 r2 hp hs
+
+/-- the sorted terminal returns the collected rows, each exactly once, in non-decreasing order -/
+theorem C01_sorted_is_sorted (sh : RowShape) (rows : List Val) :
+    (sortRows sh rows).Perm rows ∧ (sortRows sh rows).Pairwise (fun a b => rowLe sh a b = true) :=
+  ⟨sortRows_perm sh rows, sortRows_sorted sh rows⟩
+
+/-- `collect_par_sorted_by_key`: the collected rows, each exactly once, keys non-decreasing, and the rows of one
+    key in their ARRIVAL order (the sort is stable and never looks at a value) -/
+theorem C01_sorted_by_key_spec (rows : List Val) :
+    (sortByKey rows).Perm rows ∧ (sortByKey rows).Pairwise (fun a b => Val.le a.key b.key = true) ∧
+    ∀ k, (sortByKey rows).filter (fun r => r.key == k) = rows.filter (fun r => r.key == k) :=
+  ⟨sortByKey_perm rows, sortByKey_sorted rows, sortByKey_stable rows⟩
+
+/-- … hence for row lists that are permutations of each other (the two modes after a barrier): the same KEY
+    sequence, and key by key the same rows as a multiset — equal up to the order of equal-key rows. PARTIAL with
+    respect to sequence equality, which is false (`C01_sorted_by_key_not_a_function_of_the_multiset`). -/
+theorem C01_sorted_by_key_of_same_multiset_partial (r1 r2 : List Val) (hp : r1.Perm r2) :
+    (sortByKey r1).map Val.key = (sortByKey r2).map Val.key ∧
+    ∀ k, ((sortByKey r1).filter (fun r => r.key == k)).Perm ((sortByKey r2).filter (fun r => r.key == k)) :=
+  ⟨sortByKey_keys_of_perm r1 r2 hp, sortByKey_groups_of_perm r1 r2 hp⟩
+
+/-- NEGATION: two arrival orders of the same two rows give different `sorted_by_key` results -/
+theorem C01_sorted_by_key_not_a_function_of_the_multiset :
+    ∃ r1 r2 : List Val, r1.Perm r2 ∧ sortByKey r1 ≠ sortByKey r2 := by
+  refine ⟨[.pair (.int 0) (.int 1), .pair (.int 0) (.int 2)], [.pair (.int 0) (.int 2), .pair (.int 0) (.int 1)],
+    List.Perm.swap _ _ _, ?_⟩
+  have h1 : sortByKey [.pair (.int 0) (.int 1), .pair (.int 0) (.int 2)]
+      = [.pair (.int 0) (.int 1), .pair (.int 0) (.int 2)] :=
+    List.mergeSort_of_pairwise (by decide)
+  have h2 : sortByKey [.pair (.int 0) (.int 2), .pair (.int 0) (.int 1)]
+      = [.pair (.int 0) (.int 2), .pair (.int 0) (.int 1)] :=
+    List.mergeSort_of_pairwise (by decide)
+  rw [h1, h2]
+  decide
+
+/-- for the barrier-FREE programs (where C01 is sequence equality on the real engine too, `C01_program` on a
+    model without hash maps) `sorted_by_key` agrees across modes exactly -/
+theorem C01_sorted_by_key_program (src : List Val) (steps : List Step)
+    (h : stepsSupported steps = true) (n : Nat) :
+    (runPar src steps n).map sortByKey = (runSeq src steps).map sortByKey := by
+  rw [C01_program src steps h n]
+
+/-! ## Round 3: sources other than `from_vec` -/
+
+/-- `from_iter` is `from_vec` of the collected iterator -/
+theorem C01_from_iter (rows : List Val) : SourceSpec.iter.node rows = vecSource rows := rfl
+
+/-- **C01 for a user `VecOps`** (`from_custom_source`): whatever `len` answers (`None`, a wrong number) and
+    whatever `split` answers (`None` — the engine then takes `clone_any` as the single part —, more, fewer or
+    empty parts), parallel = sequential for every chain of builder-made nodes and every partition count, PROVIDED
+    the parts `split` returns concatenate to what `clone_any` returns. That proviso is the `VecOps` contract. -/
+theorem C01_custom_source (rows : List Val) (lp : LenPol) (sp : SplitPol)
+    (hc : ∀ n parts, sp.split rows n = Option.some parts → parts.flatten = rows)
+    (rest : List (Node Part)) (h : ∀ nd ∈ rest, Built nd) (n : Nat) :
+    execPar List.flatten (optimise (customSource rows lp sp :: rest)) n
+      = execSeq (optimise (customSource rows lp sp :: rest)) :=
+  C01_pipeline_any_source rows _ _ (customSource_split_flatten rows sp hc) rest h n
+
+/-- the five policies of the harness that keep the contract do so for every input and partition count -/
+theorem C01_lawful_policies_keep_contract (sp : SplitPol) (h : sp.lawful = true) (rows : List Val) (n : Nat)
+    (parts : List Part) (hs : sp.split rows n = Option.some parts) : parts.flatten = rows :=
+  split_contract sp h rows n parts hs
+
+/-- … so for them, for the programs the driver runs (join-free covered programs), both modes agree -/
+theorem C01_program_custom (rows : List Val) (lp : LenPol) (sp : SplitPol) (hl : sp.lawful = true)
+    (steps : List Step) (h : steps.all Step.subSupported = true) (n : Nat) :
+    runParFrom (customSource rows lp sp) steps n = runSeqFrom (customSource rows lp sp) steps := by
+  have hchain : applySteps [customSource rows lp sp] steps
+      = customSource rows lp sp :: steps.flatMap (Step.apply []) := by
+    rw [applySteps_joinFree steps (steps_joinFree_of_sub steps h)]; rfl
+  unfold runParFrom runSeqFrom
+  rw [hchain]
+  exact C01_custom_source rows lp sp (fun k parts hs => split_contract sp hl rows k parts hs)
+    _ (fun nd hnd => .sub (steps_nodes_subBuilt steps h nd hnd)) n
+
+/-- over `from_vec` / `from_iter` the new entry points are the old ones -/
+theorem C01_runFrom_vec (src : List Val) (steps : List Step) (n : Nat) :
+    runSeqFrom (SourceSpec.vec.node src) steps = runSeq src steps ∧
+    runParFrom (SourceSpec.iter.node src) steps n = runPar src steps n := ⟨rfl, rfl⟩
+
+/-- THE HYPOTHESIS IS NEEDED (witness): a `split` that drops the last row makes the parallel run lose it -/
+theorem C01_custom_source_contract_needed :
+    runParFrom (customSource [.int 1, .int 2, .int 3] .exact (.dropLast 2)) [] 2 = .ok [.int 1, .int 2] ∧
+    runSeqFrom (customSource [.int 1, .int 2, .int 3] .exact (.dropLast 2)) [] = .ok [.int 1, .int 2, .int 3] ∧
+    runParFrom (customSource [.int 1, .int 2, .int 3] .exact (.revParts 1)) [.map (.add 0)] 2
+      = .ok [.int 3, .int 2, .int 1] := by
+  refine ⟨by rfl, by rfl, by rfl⟩
+
+/-- non-vacuity: `len = None` and `split = None` (one part holding `clone_any`), and empty parts around every row -/
+example : runParFrom (customSource [.int 1, .int 2, .int 3] .none .none) [.combineGlobally .sum (some 2)] 5
+    = .ok [.int 6] := by rfl
+example : runParFrom (customSource [.int 1, .int 2, .int 3] (.fixed 9) (.empties 1)) [.combineGlobally .count (some 0)] 5
+    = .ok [.int 3] := by rfl
+example : SplitPol.lawful (.empties 1) = true ∧ SplitPol.lawful (.minus 3) = true ∧ SplitPol.lawful (.dropLast 2) = false := by decide
 
 end IB
